@@ -298,6 +298,9 @@ class Tr:
                 return table[e.args[0].value]
             if f.id in FREE_FUNCS:
                 return self.call_sig(FREE_FUNCS[f.id], None, e.args, e.keywords)
+            if f.id == "_exp" and len(e.args) == 1 and not e.keywords:
+                # mean._exp = math.exp saturating to inf on overflow: the same function in the value rendering
+                return f"(P.exp {self.ex(e.args[0])})"
             if f.id == "MeanResult":
                 if e.args:
                     raise Unsupported("positional MeanResult")
@@ -606,6 +609,10 @@ def generate(src: Path) -> dict[str, str]:
             out[sig["mod"]].append(f"instance : Add (Aggr {A}) := ⟨Aggr.add⟩\n")
         if tr.guards:
             guards[key] = tr.guards
+    exp_fn = find(mods, "mean._exp")
+    if "\n".join(ast.unparse(x) for x in exp_fn.body) != (
+            "try:\n    return math.exp(x)\nexcept OverflowError:\n    return float('inf')"):
+        raise Unsupported("mean._exp is not `math.exp saturating to inf`")
     out["Mean"].append(mean_ctor_map(mods))
     out["Multiplicity"].append(benjamini_m_adj(mods))
     files = {}
